@@ -372,11 +372,24 @@ func runC16(c *Ctx) {
 		if snap != nil && rest != nil {
 			okCopy := len(CallsIn(snap, "(*db/diffdb.cacheDB).copy")) == 1
 			c.Require("C16.R6 snapshot-copy-faithful", FuncKey(snap), p.Pos(snap.Pos()), "a snapshot is a deep copy of the overlay (later writes must not reach it)", okCopy, "")
+			// the overlay's contents become the stored snapshot's: either the cache field is
+			// assigned the snapshot, or the shared cache object's contents are (in place)
 			okRest := false
-			for _, st := range storesToField(rest, "db/diffdb.Database", "cache") {
-				okRest = strings.Contains(T(st.Val).String(), ".snapshots[")
+			detRest := ""
+			for _, b := range rest.Blocks {
+				for _, in := range b.Instrs {
+					st, isSt := in.(*ssa.Store)
+					if !isSt {
+						continue
+					}
+					addr, val := T(st.Addr).String(), T(st.Val).String()
+					if strings.Contains(addr, "p0.cache") && strings.Contains(val, "p0.snapshots[p1]") {
+						okRest = true
+						detRest = addr + " := " + val
+					}
+				}
 			}
-			c.Require("C16.R6 snapshot-copy-faithful", FuncKey(rest), p.Pos(rest.Pos()), "restore replaces the overlay with the stored snapshot", okRest, "")
+			c.Require("C16.R6 snapshot-copy-faithful", FuncKey(rest), p.Pos(rest.Pos()), "restore replaces the overlay (or its contents) with the stored snapshot", okRest, detRest)
 		}
 	}
 
